@@ -2,8 +2,11 @@
 # usage: seedtest.sh <property> <patch.diff> [extra gosym flags]  -- applies a seeded change to /repo, runs the quick check, reverts
 ID="$1"; PATCH="$2"; shift; shift
 cd /repo || exit 2
-git apply --check "$PATCH" || { echo "patch does not apply"; exit 2; }
-git apply "$PATCH"
+if git apply --check "$PATCH" 2>/dev/null; then git apply "$PATCH"; else
+  # the repository has moved on (fix: commits) since the seed was written: apply with fuzz
+  patch -p1 --fuzz=3 --no-backup-if-mismatch -s < "$PATCH" || { echo "patch does not apply"; git checkout -- .; exit 2; }
+  echo "(applied with fuzz)"
+fi
 cd /verif && ./check.sh "$ID" quick "$@" 2>&1 | grep -E "^(SUMMARY|VIOLATION|KNOWN|ENCODER|TRANSLATOR|INCONCLUSIVE|  violated)" | cut -c1-300
 rc=${PIPESTATUS[0]}
 git -C /repo checkout -- . 
